@@ -269,13 +269,22 @@ theorem cnrFold_eq (dst : List Int) (c m : Nat) :
       rw [ih]
       simp [cntNeg, prodNonNeg, hd, prod, Nat.mul_assoc]
 
-theorem countNegativeReshape_eq (dst : List Int) (h : dst ≠ []) :
+theorem countNegativeReshape_eq (dst : List Int) :
     countNegativeReshape dst = (cntNeg dst, prodNonNeg dst) := by
-  cases dst with
-  | nil => exact absurd rfl h
-  | cons d dst =>
-    simp only [countNegativeReshape]
-    rw [cnrFold_eq]; simp
+  simp only [countNegativeReshape]
+  rw [cnrFold_eq]; simp
+
+/-- no zero and no negative extent other than `-1` (the check added to `shape_reshape`) -/
+theorem any_bad_ofNat (t : List Nat) (ht : Pos t) :
+    (t.map Int.ofNat).any (fun d => d != -1 && d ≤ 0) = false := by
+  rw [List.any_eq_false]
+  intro d hd
+  simp only [List.mem_map] at hd
+  obtain ⟨x, hx, rfl⟩ := hd
+  have := ht x hx
+  have h1 : ¬ (Int.ofNat x ≤ 0) := by simp only [Int.ofNat_eq_natCast]; omega
+  simp [h1]
+  omega
 
 theorem prod_map_infer (dst : List Int) (q : Nat) :
     prod (dst.map (fun d => if d = -1 then q else d.toNat)) = prodNonNeg dst * q ^ cntNeg dst := by
@@ -302,16 +311,13 @@ theorem pos_of_prod_pos (s : List Nat) (h : 0 < prod s) : Pos s := by
     · exact ha
     · exact ih ht x hx
 
-/-- an accepted reshape keeps the element count (source extents positive) -/
-theorem shapeReshape_prod (src : Shape) (dst : List Int) (s : Shape) (hs : Pos src)
+/-- an accepted reshape keeps the element count -/
+theorem shapeReshape_prod (src : Shape) (dst : List Int) (s : Shape)
     (h : shapeReshape src dst = some s) : prod s = prod src := by
-  have hpos := prod_pos hs
-  by_cases hne : dst = []
-  · subst hne
-    simp [shapeReshape, countNegativeReshape] at h
-    omega
-  · simp only [shapeReshape, countNegativeReshape_eq dst hne] at h
-    split at h
+  simp only [shapeReshape, countNegativeReshape_eq dst] at h
+  split at h
+  · simp at h
+  · split at h
     · simp at h
     · split at h
       · simp at h
@@ -320,7 +326,7 @@ theorem shapeReshape_prod (src : Shape) (dst : List Int) (s : Shape) (hs : Pos s
         · simp only [Option.some.injEq] at h
           subst h
           rw [prod_map_infer]
-          rename_i h1 h2 h3
+          rename_i h1 _ h2 h3
           have hc : cntNeg dst = 0 ∨ cntNeg dst = 1 := by omega
           rcases hc with hc | hc
           · simp only [hc, Nat.pow_zero, Nat.mul_one]
@@ -387,18 +393,17 @@ theorem prod_replicate_one (k : Nat) : prod (List.replicate k 1) = 1 := by
   | zero => rfl
   | succ k ih => simp [List.replicate_succ, prod, ih]
 
-/-- a view that is `reshapeView` to a non-empty Nat shape with the same count: accepted, that shape, C order kept -/
-theorem reshapeView_nat {α : Type} (a : Arr α) (fill : α) (t : Shape) (hne : t ≠ []) (hp : prod t = prod a.shape)
+/-- a view that is `reshapeView` to a Nat shape with the same count: accepted, that shape, C order kept -/
+theorem reshapeView_nat {α : Type} (a : Arr α) (fill : α) (t : Shape) (hp : prod t = prod a.shape)
     (ha : Pos a.shape) :
     ∃ v, reshapeView a.shape (t.map Int.ofNat) = some v ∧ v.src = a.shape ∧ v.dst = t ∧
       (v.apply a fill).flat = a.flat ∧ v.InBounds := by
+  have hpos : Pos t := pos_of_prod_pos t (by rw [hp]; exact prod_pos ha)
   have hs : shapeReshape a.shape (t.map Int.ofNat) = some t := by
-    have hne' : t.map Int.ofNat ≠ [] := by simpa using hne
-    simp only [shapeReshape, countNegativeReshape_eq _ hne', cntNeg_ofNat, prodNonNeg_ofNat, hp]
+    simp only [shapeReshape, countNegativeReshape_eq, cntNeg_ofNat, prodNonNeg_ofNat, hp, any_bad_ofNat t hpos]
     simp [map_infer_ofNat]
   refine ⟨_, by simp only [reshapeView, hs]; rfl, rfl, rfl, ?_, ?_⟩
-  · have hpos : Pos t := pos_of_prod_pos t (by rw [hp]; exact prod_pos ha)
-    simp only [Arr.flat, IxView.apply]
+  · simp only [Arr.flat, IxView.apply]
     exact reshape_map_flat a t hpos ha hp
   · intro d _ i hi
     simp only [Option.some.injEq] at hi
@@ -406,8 +411,8 @@ theorem reshapeView_nat {α : Type} (a : Arr α) (fill : α) (t : Shape) (hne : 
     exact indices_inShape ha _
 
 /-! ### flip -/
-theorem flipGo_length (axes : Option (List Int)) (k0 : Nat) (src d : List Nat) (h : d.length = src.length) :
-    (flipGo axes k0 src d).length = src.length := by
+theorem flipGo_length (axes : Option (List Int)) (dim k0 : Nat) (src d : List Nat) (h : d.length = src.length) :
+    (flipGo axes dim k0 src d).length = src.length := by
   induction src generalizing k0 d with
   | nil => cases d <;> simp [flipGo]
   | cons n ns ih =>
@@ -415,9 +420,9 @@ theorem flipGo_length (axes : Option (List Int)) (k0 : Nat) (src d : List Nat) (
     | nil => simp at h
     | cons x xs => simp [flipGo, ih (k0+1) xs (by simpa using h)]
 
-theorem flipGo_get (axes : Option (List Int)) (k0 : Nat) (src d : List Nat) (j n x : Nat)
+theorem flipGo_get (axes : Option (List Int)) (dim k0 : Nat) (src d : List Nat) (j n x : Nat)
     (hn : src[j]? = some n) (hx : d[j]? = some x) :
-    (flipGo axes k0 src d)[j]? = some (if flipInAxis axes (k0 + j) then n - 1 - x else x) := by
+    (flipGo axes dim k0 src d)[j]? = some (if flipInAxis axes dim (k0 + j) then n - 1 - x else x) := by
   induction src generalizing k0 d j with
   | nil => simp at hn
   | cons m ns ih =>
@@ -433,8 +438,8 @@ theorem flipGo_get (axes : Option (List Int)) (k0 : Nat) (src d : List Nat) (j n
         have : k0 + 1 + j = k0 + (j + 1) := by omega
         rw [this]
 
-theorem flipGo_inShape (axes : Option (List Int)) (k0 : Nat) (src d : List Nat) (h : InShape d src) :
-    InShape (flipGo axes k0 src d) src := by
+theorem flipGo_inShape (axes : Option (List Int)) (dim k0 : Nat) (src d : List Nat) (h : InShape d src) :
+    InShape (flipGo axes dim k0 src d) src := by
   induction src generalizing k0 d with
   | nil => cases d <;> simp_all [InShape, flipGo]
   | cons n ns ih =>
@@ -446,8 +451,8 @@ theorem flipGo_inShape (axes : Option (List Int)) (k0 : Nat) (src d : List Nat) 
       refine ⟨?_, ih (k0+1) xs h.2⟩
       split <;> omega
 
-theorem flipGo_flipGo (axes : Option (List Int)) (k0 : Nat) (src d : List Nat) (h : InShape d src) :
-    flipGo axes k0 src (flipGo axes k0 src d) = d := by
+theorem flipGo_flipGo (axes : Option (List Int)) (dim k0 : Nat) (src d : List Nat) (h : InShape d src) :
+    flipGo axes dim k0 src (flipGo axes dim k0 src d) = d := by
   induction src generalizing k0 d with
   | nil => cases d <;> simp_all [InShape, flipGo]
   | cons n ns ih =>
@@ -459,8 +464,35 @@ theorem flipGo_flipGo (axes : Option (List Int)) (k0 : Nat) (src d : List Nat) (
       congr 1
       split <;> omega
 
-theorem flipInAxis_some (ax : List Int) (k : Nat) : flipInAxis (some ax) k = true ↔ (k : Int) ∈ ax := by
-  simp [flipInAxis]
+/-- the normalised comparison of `flip_slices` decides membership in NumPy's normalised axis tuple -/
+theorem flipInAxis_some (ax : List Int) (nax : List Nat) (dim k : Nat) (hn : normalizeAxes dim ax = some nax) :
+    flipInAxis (some ax) dim k = true ↔ k ∈ nax := by
+  induction ax generalizing nax with
+  | nil =>
+    simp [normalizeAxes] at hn
+    subst hn
+    simp [flipInAxis]
+  | cons a ax ih =>
+    unfold normalizeAxes at hn ih
+    rw [mapM_cons_opt] at hn
+    cases hfa : normalizeAxis dim a with
+    | none => simp [hfa] at hn
+    | some m =>
+      cases hl : ax.mapM (normalizeAxis dim) with
+      | none => simp [hfa, hl] at hn
+      | some r =>
+        simp [hfa, hl] at hn
+        subst hn
+        have ih' := ih r hl
+        have hm : ((if a < 0 then a + (dim : Int) else a) = (k : Int)) ↔ k = m := by
+          unfold normalizeAxis at hfa
+          split at hfa
+          · simp only [Option.some.injEq] at hfa
+            subst hfa
+            split <;> omega
+          · simp at hfa
+        simp only [flipInAxis, List.any_cons, Bool.or_eq_true, beq_iff_eq, List.mem_cons] at ih' ⊢
+        rw [hm, ih']
 
 /-! ### expand_dims -/
 /-- SPEC side of expand_dims: delete the positions `i, i+1, …` of `out` that are listed in the axes -/
